@@ -5,6 +5,7 @@ import MosnVerif.Model.PoolMux
 import MosnVerif.Model.PoolH2
 import MosnVerif.Drive.C09Win
 import MosnVerif.Drive.C09MxWin
+import MosnVerif.Drive.C09Bnd
 namespace MosnVerif.Drive.C09
 open MosnVerif.Drive MosnVerif.Model.Pool
 
@@ -317,6 +318,7 @@ def run (caseToks impl : List String) : String :=
   | ["win", kind, mc, mr, ops] => C09Win.win kind mc mr ops impl
   | ["mxw", slots, mr, ops] => C09MxWin.runKind false slots mr ops impl
   | ["h2w", mr, ops] => C09MxWin.runKind true "1" mr ops impl
+  | ["bnd", mr, ops] => C09Bnd.run mr ops impl
   | ["conc", _, _, mr, _, _, _] => conc mr impl
   | _ => "E E unknown-kind"
 
